@@ -34,6 +34,10 @@ def mutations(rng, req):
     yield 'method-unknown', mut(lambda r: r.update(preferenceFunction='noSuchMethod')), 'reject', {'mustListAvailable': True}
     yield 'method-blank', mut(lambda r: r.update(preferenceFunction='  ')), 'reject', {}
     yield 'bias-unknown', mut(lambda r: r['biases'].append({'name': 'noSuchBias', 'props': {}})), 'reject', {'mustListAvailable': True}
+    yield 'bias-unknown-never-fires', mut(lambda r: r['biases'].append({'name': 'noSuchBias', 'applyProbability': 0, 'props': {}})), 'reject', {'mustListAvailable': True}
+    yield 'bias-unknown-first-never-fires', mut(lambda r: r['biases'].insert(0, {'name': 'noSuchBias', 'applyProbability': 0})), 'reject', {'mustListAvailable': True}
+    yield 'chose-nothing', mut(lambda r: r.update(choseToMake=[])), 'any', {}
+    yield 'chose-missing', mut(lambda r: r.pop('choseToMake')), 'any', {}
     yield 'bias-unknown-disabled', mut(lambda r: r['biases'].append({'name': 'noSuchBias', 'disabled': True})), 'ok', {}
     yield 'criterion-duplicate', mut(lambda r: r['criteria'].append(dict(r['criteria'][0]))), 'reject', {}
     yield 'range-empty', mut(lambda r: r['criteria'][0].update(valuesRange={'min': PU, 'max': PU})), 'reject', {}
